@@ -18,6 +18,7 @@ import FendModel.Model.Units
 import FendModel.Model.NumLit
 import FendModel.Model.Root
 import FendModel.Model.Parser
+import FendModel.Model.Scope
 
 open Fend Fend.Proto
 
@@ -560,6 +561,61 @@ def parseLine (line : String) : String :=
     | some e => "ok " ++ Fend.Parser.fmt e
     | none => "err"
 
+/-- prefix form: `N p/q | U | V x | P e | G e | B op a b | L x body | A f a | S x e | Q a b` -/
+def parseScopeExpr : Nat → List String → Option (Fend.Scope.Expr × List String)
+  | 0, _ => none
+  | fuel + 1, toks =>
+    match toks with
+    | "N" :: q :: rest => (parseQ q).map fun q => (.num q, rest)
+    | "U" :: rest => some (.unitLit, rest)
+    | "V" :: x :: rest => some (.var x, rest)
+    | "P" :: rest => (parseScopeExpr fuel rest).map fun (e, r) => (.parens e, r)
+    | "G" :: rest => (parseScopeExpr fuel rest).map fun (e, r) => (.neg e, r)
+    | "B" :: op :: rest =>
+      let op? : Option Fend.Scope.Op := match op with
+        | "+" => some .add | "-" => some .sub | "*" => some .mul | "/" => some .div | _ => none
+      match op?, parseScopeExpr fuel rest with
+      | some op, some (a, r) => (parseScopeExpr fuel r).map fun (b, r') => (.bop op a b, r')
+      | _, _ => none
+    | "L" :: x :: rest => (parseScopeExpr fuel rest).map fun (e, r) => (.lam x e, r)
+    | "A" :: rest =>
+      match parseScopeExpr fuel rest with
+      | some (f, r) => (parseScopeExpr fuel r).map fun (a, r') => (.app f a, r')
+      | none => none
+    | "S" :: x :: rest => (parseScopeExpr fuel rest).map fun (e, r) => (.assign x e, r)
+    | "Q" :: rest =>
+      match parseScopeExpr fuel rest with
+      | some (a, r) => (parseScopeExpr fuel r).map fun (b, r') => (.seq a b, r')
+      | none => none
+    | _ => none
+
+def scopeBuiltins : List (String × Rat) :=
+  [("dozen", 12), ("gross", 144), ("hundred", 100), ("thousand", 1000), ("million", 1000000), ("score", 20)]
+
+/-- inputs separated by ` ;; `, evaluated left to right in one context -/
+def scopeLine (line : String) : String :=
+  let inputs := line.trimAscii.toString.splitOn " ;; "
+  let rec go (ins : List String) (vs : Fend.Scope.Vars) (acc : List String) : List String :=
+    match ins with
+    | [] => acc.reverse
+    | i :: rest =>
+      let toks := (i.splitOn " ").filter (!·.isEmpty)
+      match parseScopeExpr (toks.length + 1) toks with
+      | some (e, []) =>
+        let (r, vs') := Fend.Scope.evalInput scopeBuiltins 20000 e vs
+        let out := match r with
+          | .ok (.num q) => "ok " ++ showRatQ q
+          | .ok .unit => "ok ()"
+          | .ok (.fn _ _ _) => "ok fn"
+          | .error (.unknownIdent x) => "err unknown " ++ x
+          | .error .divByZero => "err divByZero"
+          | .error .notAFunction => "err notAFunction"
+          | .error .badOperands => "err badOperands"
+          | .error .fuel => "err fuel"
+        go rest vs' (out :: acc)
+      | _ => go rest vs ("bad-op" :: acc)
+  " ;; ".intercalate (go inputs [] [])
+
 partial def loop (h : IO.FS.Stream) (out : IO.FS.Stream) (f : String → String) : IO Unit := do
   let line ← h.getLine
   if line.isEmpty then return ()
@@ -588,6 +644,7 @@ def main (args : List String) : IO UInt32 := do
   | ["ratfmt"] => loop stdin stdout ratfmtLine; return 0
   | ["roots"] => loop stdin stdout rootsLine; return 0
   | ["parse"] => loop stdin stdout parseLine; return 0
+  | ["scope"] => loop stdin stdout scopeLine; return 0
   | ["numlit"] => loop stdin stdout numlitLine; return 0
   | ["clirun"] => loop stdin stdout clirunLine; return 0
   | _ => IO.eprintln "usage: fend_model_driver <stream>"; return 2
